@@ -200,6 +200,14 @@ int cp_etrs_ver(size_t thres, const bn_t *td, const bn_t *y, size_t max,
 		ec_curve_get_ord(n);
 
 		flag = 1;
+		/* Evaluation points and trapdoors are reduced modulo the order. */
+		for (i = 0; i < max; i++) {
+			flag &= bn_sign(y[i]) == RLC_POS && bn_cmp(y[i], n) == RLC_LT;
+			flag &= bn_sign(td[i]) == RLC_POS && bn_cmp(td[i], n) == RLC_LT;
+		}
+		for (i = 0; i < size; i++) {
+			flag &= bn_sign(s[i]->y) == RLC_POS && bn_cmp(s[i]->y, n) == RLC_LT;
+		}
 		/* Interpolating at zero through the first d points must give pp, and
 		 * through one point fewer must not (the threshold is exact). */
 		for (int k = d; k >= d - 1; k--) {
